@@ -280,6 +280,12 @@ public:
 		
 		// this is not a special number
 		int exponent = int(raw_exp) - 127;  // unbias the exponent
+		if (raw_exp == 0) {
+			// the source real is a subnormal number: normalize it so that it can be processed as 1.fff * 2^exponent
+			int shift = 24 - int(find_msb(raw)); // precondition that msb > 0 is satisfied by the zero test above
+			raw = (raw << shift) & 0x007F'FFFFu;
+			exponent = -126 - shift;
+		}
 
 #if TRACE_CONVERSION
 		std::cout << '\n';
@@ -314,8 +320,8 @@ public:
 		if (exponent >= MIN_EXP_SUBNORMAL && exponent < MIN_EXP_NORMAL) {
 			// this number is a subnormal number in this representation
 			// trick though is that it might be a normal number in IEEE single precision representation
-			if (exponent > -127) {
-				// the source real is a normal number, so we must add the hidden bit to the fraction bits
+			{
+				// the source real is a normal number, or has been normalized, so we must add the hidden bit to the fraction bits
 				raw |= (1ull << 23);
 				mask = 0x00FF'FFFFu >> (fbits + exponent + subnormal_reciprocal_shift[es] + 1); // mask for sticky bit 
 #if TRACE_CONVERSION
@@ -332,25 +338,6 @@ public:
 				else { // all bits of the float go into this representation and need to be shifted up
 					// ubit = false; already set to false
 					std::cout << "conversion of IEEE float to more precise areals not implemented yet\n";
-				}
-			}
-			else {
-				// the source real is a subnormal number, and the target representation is a subnormal representation
-				mask = 0x00FF'FFFFu >> (fbits + exponent + subnormal_reciprocal_shift[es] + 1); // mask for sticky bit 
-#if TRACE_CONVERSION
-				std::cout << "fraction bits   : " << to_binary(raw, true) << std::endl;
-#endif
-				// fraction processing: we have 24 bits = 1 hidden + 23 explicit fraction bits 
-				// f = 1.ffff 2^exponent * 2^fbits * 2^-(2-2^(es-1)) = 1.ff...ff >> (23 - (-exponent + fbits - (2 -2^(es-1))))
-				// -exponent because we are right shifting and exponent in this range is negative
-				adjustment = -(exponent + subnormal_reciprocal_shift[es]); // this is the right shift adjustment due to the scale of the input number, i.e. the exponent of 2^-adjustment
-				if (shiftRight > 0) {		// do we need to round?
-					ubit = (mask & raw) != 0;
-					raw >>= shiftRight + adjustment;
-				}
-				else { // all bits of the float go into this representation and need to be shifted up
-					// ubit = false; already set to false
-					std::cout << "conversion of subnormal IEEE float to more precise areals not implemented yet\n";
 				}
 			}
 		}
@@ -444,6 +431,12 @@ public:
 		}
 		// this is not a special number
 		int exponent = int(raw_exp) - 1023;  // unbias the exponent
+		if (raw_exp == 0) {
+			// the source real is a subnormal number: normalize it so that it can be processed as 1.fff * 2^exponent
+			int shift = 53 - int(find_msb(raw)); // precondition that msb > 0 is satisfied by the zero test above
+			raw = (raw << shift) & 0x000F'FFFF'FFFF'FFFFull;
+			exponent = -1022 - shift;
+		}
 #if TRACE_CONVERSION
 		std::cout << '\n';
 		std::cout << "value           : " << rhs << '\n';
@@ -478,9 +471,9 @@ public:
 			// this number is a subnormal number in this representation
 			// but it might be a normal number in IEEE double precision representation
 			// which will require a reinterpretation of the bits as the hidden bit becomes explicit in a subnormal representation
-			if (exponent > -1022) {
+			{
 				mask = 0x001F'FFFF'FFFF'FFFFull >> (fbits + exponent + subnormal_reciprocal_shift[es] + 1); // mask for sticky bit 
-				// the source real is a normal number, so we must add the hidden bit to the fraction bits
+				// the source real is a normal number, or has been normalized, so we must add the hidden bit to the fraction bits
 				raw |= (1ull << 52);
 #if TRACE_CONVERSION
 				std::cout << "mask     bits   : " << to_binary(mask, true) << std::endl;
@@ -503,10 +496,6 @@ public:
 					// ubit = false; already set to false
 					std::cout << "conversion of IEEE double to more precise areals not implemented yet\n";
 				}
-			}
-			else {
-				// this is a subnormal double
-				std::cout << "conversion of subnormal IEEE doubles not implemented yet\n";
 			}
 		}
 		else {
